@@ -428,13 +428,14 @@ class Program:
         if known is None or getattr(self, 'normalised', False):
             return
         self.normalised = True
-        from .inline import inlined, is_new_helper
-        helpers = {f.p: f for f in self.fns.values() if is_new_helper(self, f, known)}
+        from .inline import inlined, is_new_helper, drop_cyclic
+        helpers = drop_cyclic(self, {f.p: f for f in self.fns.values() if is_new_helper(self, f, known)})
         self.inlined_helpers = sorted(short(p_) for p_ in helpers)
         if not helpers:
             return
         self.all_fns = dict(self.fns)
         home = {}
+        absorbers = {}
         new_fns = {}
         for p_, f in self.fns.items():
             if p_ in helpers:
@@ -442,20 +443,27 @@ class Program:
             nf = inlined(self, f, helpers)
             new_fns[p_] = nf
             for h in (nf.inlined_from or []):
-                home[h] = p_
-        # closures of helpers move to the unit that absorbed the helper
+                home.setdefault(h, p_)
+                absorbers.setdefault(h, []).append(p_)
+        # closures of helpers move to the unit(s) that absorbed the helper (a shared helper has several)
         self.helper_home = home
         self.fns = new_fns
         self.by_short = {}
         for f in self.fns.values():
             self.by_short.setdefault(f.short, []).append(f)
         self.children = {}
+
+        def _roots(par, depth=0):
+            if par in absorbers and depth < 8:
+                out = []
+                for a in absorbers[par]:
+                    out.extend(_roots(a, depth + 1))
+                return out
+            return [par]
         for f in self.fns.values():
             if f.parent:
-                par = f.parent
-                while par in home:
-                    par = home[par]
-                self.children.setdefault(par, []).append(f)
+                for par in dict.fromkeys(_roots(f.parent)):
+                    self.children.setdefault(par, []).append(f)
         self._cidx = None
 
     def fns_named(self, short_name):
